@@ -120,7 +120,7 @@ theorem runHist_self (order : List Nat) (sts : List Sql.Stmt) :
 change: `HistOK`), a SELECT of a parser-produced shape over ANY tables never panics. -/
 theorem history_select_never_panics_any (sts : List Sql.Stmt) (hok : HistOK [] sts newDB []) :
     ∃ db', runHist [] newDB sts = some db' ∧ ∀ q : Select,
-      ((∃ a, q.list = [⟨.star, a⟩]) ∨ isStar q.list = false) →
+      (Exec.NoPanicP.ParsedShape q) →
       (∀ n ∈ selectNames q, FetchTotal db' n) ∧ ∀ s, evaluateSelect (fetchOf db') q ≠ .panic s := by
   obtain ⟨db', pt', sch', tbls', hrun, hrel, hs⟩ := runHist_self [] sts newDB ptNew schNew [] [] rel_newDB catSelf_new hok
   refine ⟨db', hrun, fun q hq => ?_⟩
